@@ -157,8 +157,9 @@ def run(ctx):
         "DISABLED,DESTROYED} x {full, legacy adapter} x any primary x any order, plus shared key material (<= 2 keys), plus every "
         "keyset reachable through KeysetManager.tla; on each, all inputs made by any (id, prefix type, key material incl. a foreign "
         "one) and every first-five-byte collision of a prefix-less output; 9 primitive classes. (R) the same keysets written out by "
-        "TLC (all in thorough; all <= 2-key and a seeded sample of 3-key ones in quick) instantiated with real keys per class (2-6 "
-        "key types per class dealt over the key materials, legacy-adapter path through a harness-registered registry.KeyManager, "
+        "TLC (all in thorough; all <= 2-key and a seeded sample of 3-key ones in quick) instantiated with real keys per class (1-6 "
+        "key types per class with different header/nonce/tag/signature lengths, drawn per keyset so that every ordered mix of key "
+        "types occurs with the producing key at every position, legacy-adapter path through a harness-registered registry.KeyManager, "
         "ids rotated over {0, 2^32-1, 0x01020304, 2^31, 2^31-1, 1}), colliding prefix-less outputs found by search and the other "
         "key's id taken from their bytes; (T) seeded random keysets of <= 8 keys + 30 real keyset.Manager calls each. Every "
         "event (keyset as the handle shows it, produced output's prefix and which single keys accept it, accept/reject per input, "
@@ -229,6 +230,13 @@ def run(ctx):
     plan_cases = list(chosen) + [variant(c, "all") for c in var_src] + [variant(c, "mix") for c in var_src]
     for k, c in enumerate(plan_cases):
         c["rot"] = (k + ctx.seed) % 6
+        # which REAL key types the keyset mixes, and in which order: the model's materials m1..m3 (tied to positions 1..3)
+        # are renamed to three distinct materials out of m1..m12; a material's number deals its key type (12 is a multiple
+        # of every class's number of key types), so over the cases every class meets every ordered mix of its key types
+        # (different header / nonce / tag / signature lengths), with the producing key at every position. The foreign
+        # material f1 gets the key type of one of the keyset's materials.
+        a = ctx.rng.sample(range(1, 13), 3)
+        c["mats"] = {"m1": "m%d" % a[0], "m2": "m%d" % a[1], "m3": "m%d" % a[2], "f1": "f%d" % ctx.rng.choice(a[:len(c["ks"])])}
     plan = os.path.join(ctx.scratch, "plan.ndjson")
     open(plan, "w").write("".join(json.dumps(c) + "\n" for c in plan_cases))
     ctx.stage("R:plan", keysets_in_model=n_all, makers=n_makers, keysets_replayed=len(chosen), with_impl_variants=len(plan_cases))
